@@ -307,7 +307,9 @@ class Verifier:
             fr.env['result'] = result
             ip.ghost_exec(c.ghost['exit'], fr)
         senv = ip.spec_env(fr)
-        senv['result'] = result
+        if 'result' not in (c.params or {}):
+            senv['result'] = result
+        senv['ret'] = result
         if not c.ensures:
             # closed-escape-set contracts without a functional postcondition: the obligation on a
             # normal exit is only that the path exists and ends normally (recorded, trivially true)
